@@ -225,6 +225,9 @@ def runEntry (s : St) (e : Entry) (dests : List Peer) (n : Nat) : St × Nat × N
   answer `<ok|err:k> delivered=<d>`
 * `down <p>` — the peer stops and every connection with it is detected; answer: the handler
   invocations `h>p` in order
+* `pause` — the survivor's receive loops stop reporting (`Router.Pause`, a test facility): failures
+  that happen from now on leave stale entries; no effect on the model state
+* `kill <p>` — the peer stops and nobody notices yet: its connections become stale entries
 * `up <p>` — something listens at the peer's address again
 * `conns <p>` — number of registered connections with p
 -/
@@ -255,6 +258,11 @@ def step (s : State) (toks : List String) : State × String :=
       let newCalls := s2.calls.drop s.calls.length
       ({ s2 with calls := [] },
         if newCalls.isEmpty then "-" else ",".intercalate (newCalls.map fun (h, q) => s!"{h}>{q}"))
+    | none => (s, "bad-op")
+  | ["pause"] => (s, "ok")
+  | ["kill", p] =>
+    match p.toNat? with
+    | some p => ((C09.step s (.peerDown p)).1, "-")
     | none => (s, "bad-op")
   | ["up", p] =>
     match p.toNat? with
